@@ -1296,6 +1296,9 @@ class element_if(x12_node):
         if len(type_list) > 0:
             valid_type = False
             for dtype in type_list:
+                # as a format qualifier DT means CCYYMMDDHHMM (the data type DT also takes 6 and 8 digits)
+                if dtype == 'DT' and len(elem_val) != 12:
+                    continue
                 valid_type |= validation.IsValidDataType(elem_val, dtype, self.root.param.get('charset'))
             if not valid_type:
                 if 'TM' in type_list:
